@@ -202,10 +202,23 @@ pub fn judge_image<K: SimKey>(
     });
     let cfg = w.cfg.clone();
     let finish = |w: &mut World<K>, f: Failure| -> Failure {
+        // a failure of another property's oracle must not hide what the own monitor saw during the
+        // recovery (C20: what recovery writes back must decode to an allowed state)
+        let mv = with_sim(|s| {
+            let own = s.mon.own.clone();
+            if f.props.iter().any(|p| *p == own) {
+                None
+            } else {
+                s.mon.take_own()
+            }
+        });
         w.close();
         let _ = interpose::uninstall();
         remove_dir(&base);
-        f
+        match mv {
+            Some(v) => Failure { props: vec![v.property.clone()], class: format!("{}:{}", v.monitor, v.class), op_index: 0, message: format!("{tag}: during recovery, step {}: {}", v.step, v.message) },
+            None => f,
+        }
     };
     let r = catch_unwind(AssertUnwindSafe(|| w.open_raw(&cfg)));
     match r {
